@@ -1,1 +1,357 @@
-(* Front/Attr.v -- stub, to be filled *)
+(* Front/Attr.v -- the attribute sub-language `#[asn(<type>)]` (layer F4, property C08).
+
+   printer : generate/rust.rs  RustCodeGenerator::asn_attribute_type / asn_attribute_tag, Size::to_constraint_string,
+             LiteralValue::as_rust_const_literal(true)
+   parser  : proc_macro/attribute.rs parse_type / parse_type_pre_stepped / parse_opt_size_or_any,
+             proc_macro/range.rs (MMV, IntegerRange), proc_macro/size.rs (Size, value), proc_macro/tag.rs (AttrTag)
+
+   Both sides work on token trees.  The printer of the crate produces a string that proc_macro2 / rustc lex into token
+   trees; here the printer produces the token trees directly -- the lexing of the printed sub-language (identifiers,
+   unsuffixed integer literals with the sign as a separate punct, `..`, `...`, `,`, `::`, parentheses, brackets, string
+   literals without escapes) is part of the trusted base (DESIGN.md 7, 8) and is tied by op 3412.
+   Only the types in the image of RustType::into_asn occur in attributes: no SEQUENCE/SET/ENUMERATED/CHOICE bodies. *)
+From A1 Require Export Base.Res.
+From A1 Require Import Front.Codegen.
+From Coq Require Import String.
+Local Open Scope N_scope.
+
+Inductive size := SAny | SFix (n : N) (ext : bool) | SRange (a b : N) (ext : bool).
+Inductive charset := Utf8 | Numeric | Printable | Ia5 | Visible.
+Inductive tag := TUniversal (n : N) | TApplication (n : N) | TContext (n : N) | TPrivate (n : N).
+Inductive lit :=
+| LBool (b : bool) | LStr (s : list N) | LInt (z : Z) | LOct (bs : list N) | LEnum (ty variant : list N).
+Inductive aty :=
+| ABool | ANull
+| AInt (min max : option Z) (ext : bool)
+| AStr (sz : size) (cs : charset)
+| AOct (sz : size)
+| ABits (sz : size)
+| AOpt (t : aty)
+| ADef (t : aty) (l : lit)
+| ASeqOf (t : aty) (sz : size)
+| ASetOf (t : aty) (sz : size)
+| ARef (name : list N) (tg : option tag).
+
+Inductive tok :=
+| TIdent (s : list N)
+| TNum (n : N)              (* unsuffixed integer literal (decimal or 0x..) *)
+| TPunct (c : N)
+| TStr (s : list N)         (* "..." *)
+| TParen (ts : list tok)
+| TBracket (ts : list tok).
+
+Definition DOT : N := 46.
+Definition COMMA : N := 44.
+Definition MINUS : N := 45.
+Definition COLON : N := 58.
+Definition I64_MIN : Z := (- 9223372036854775808)%Z.
+Definition I64_MAX : Z := 9223372036854775807%Z.
+Definition USIZE_MAX : N := 18446744073709551615.
+
+Definition S_boolean := codes "boolean".       Definition S_null := codes "null".
+Definition S_integer := codes "integer".       Definition S_octet_string := codes "octet_string".
+Definition S_bit_string := codes "bit_string". Definition S_optional := codes "optional".
+Definition S_option := codes "option".         Definition S_default := codes "default".
+Definition S_sequence_of := codes "sequence_of". Definition S_set_of := codes "set_of".
+Definition S_complex := codes "complex".       Definition S_size := codes "size".
+Definition S_tag := codes "tag".               Definition S_min := codes "min".
+Definition S_max := codes "max".               Definition S_true := codes "true".
+Definition S_false := codes "false".
+Definition S_UNIVERSAL := codes "UNIVERSAL".   Definition S_APPLICATION := codes "APPLICATION".
+Definition S_PRIVATE := codes "PRIVATE".
+Definition S_universal := codes "universal".   Definition S_application := codes "application".
+Definition S_private := codes "private".
+
+(* format!("{:?}string", charset).to_lowercase() *)
+Definition charset_name (cs : charset) : list N :=
+  match cs with
+  | Utf8 => codes "utf8string" | Numeric => codes "numericstring" | Printable => codes "printablestring"
+  | Ia5 => codes "ia5string" | Visible => codes "visiblestring"
+  end.
+
+(* ------------------------------------------------------------------ printer *)
+Definition print_z (z : Z) : list tok :=
+  if (z <? 0)%Z then [TPunct MINUS; TNum (Z.abs_N z)] else [TNum (Z.to_N z)].
+Definition ext_toks (e : bool) : list tok := if e then [TPunct COMMA; TPunct DOT; TPunct DOT; TPunct DOT] else [].
+Definition print_bound (b : option Z) (kw : list N) : list tok :=
+  match b with Some z => print_z z | None => [TIdent kw] end.
+
+(* Size::to_constraint_string *)
+Definition size_param (sz : size) : option (list tok) :=
+  match sz with
+  | SAny => None
+  | SFix n e => Some [TIdent S_size; TParen (TNum n :: ext_toks e)]
+  | SRange a b e => Some [TIdent S_size; TParen ([TNum a; TPunct DOT; TPunct DOT; TNum b] ++ ext_toks e)]
+  end.
+
+Definition print_tag (g : tag) : list tok :=
+  [TIdent S_tag; TParen (match g with
+                         | TUniversal n => [TIdent S_UNIVERSAL; TParen [TNum n]]
+                         | TApplication n => [TIdent S_APPLICATION; TParen [TNum n]]
+                         | TPrivate n => [TIdent S_PRIVATE; TParen [TNum n]]
+                         | TContext n => [TNum n]
+                         end)].
+
+(* LiteralValue::as_rust_const_literal(true) *)
+Definition print_lit (l : lit) : list tok :=
+  match l with
+  | LBool b => [TIdent (if b then S_true else S_false)]
+  | LStr s => [TStr s]
+  | LInt z => print_z z
+  | LOct bs => [TBracket (flat_map (fun b => [TNum b; TPunct COMMA]) bs)]
+  | LEnum t v => [TIdent (rust_struct_or_enum_name t); TPunct COLON; TPunct COLON; TIdent (rust_variant_name v)]
+  end.
+
+(* name(p1, p2, ..) or the bare name when there is no parameter *)
+Definition with_params (name : list N) (params : list (list tok)) : list tok :=
+  match params with
+  | [] => [TIdent name]
+  | p :: ps => [TIdent name; TParen (p ++ flat_map (fun q => TPunct COMMA :: q) ps)]
+  end.
+Definition opt_list {A} (o : option A) : list A := match o with Some a => [a] | None => [] end.
+
+Fixpoint print_ty (t : aty) : list tok :=
+  match t with
+  | ABool => with_params S_boolean []
+  | ANull => with_params S_null []
+  | AInt mn mx e => with_params S_integer [print_bound mn S_min ++ [TPunct DOT; TPunct DOT] ++ print_bound mx S_max ++ ext_toks e]
+  | AStr sz cs => with_params (charset_name cs) (opt_list (size_param sz))
+  | AOct sz => with_params S_octet_string (opt_list (size_param sz))
+  | ABits sz => with_params S_bit_string [match size_param sz with Some p => p | None => [] end]   (* one, maybe empty, parameter *)
+  | AOpt t' => with_params S_optional [print_ty t']
+  | ADef t' l => with_params S_default [print_ty t'; print_lit l]
+  | ASeqOf t' sz => with_params S_sequence_of (opt_list (size_param sz) ++ [print_ty t'])
+  | ASetOf t' sz => with_params S_set_of (opt_list (size_param sz) ++ [print_ty t'])
+  | ARef name tg => with_params S_complex ([TIdent name] :: opt_list (option_map print_tag tg))
+  end.
+
+(* ------------------------------------------------------------------ parser *)
+Definition E_SYN : N := 1.       (* any syn::Error *)
+Definition E_FUEL : N := 99.     (* out of fuel: never a normal answer *)
+
+Definition lower_str (s : list N) : list N := map to_lower s.
+
+(* input.parse::<Lit>() yielding Lit::Int: an integer literal, optionally preceded by `-` *)
+Definition take_int (ts : list tok) : option (Z * list tok) :=
+  match ts with
+  | TNum n :: r => Some (Z.of_N n, r)
+  | TPunct c :: TNum n :: r => if c =? MINUS then Some ((- Z.of_N n)%Z, r) else None
+  | _ => None
+  end.
+
+Definition in_i64 (z : Z) : bool := ((I64_MIN <=? z) && (z <=? I64_MAX))%Z.
+Definition in_usize (z : Z) : bool := ((0 <=? z) && (z <=? Z.of_N USIZE_MAX))%Z.
+
+(* range.rs MMV::try_parse *)
+Inductive mmv := MinMax | Value (z : Z).
+Definition parse_mmv (ts : list tok) : res (mmv * list tok) :=
+  match take_int ts with
+  | Some (z, r) => if in_i64 z then Ok (Value z, r) else Err E_SYN
+  | None =>
+    match ts with
+    | TIdent id :: r =>
+      let lc := lower_str id in
+      if str_eqb lc S_min || str_eqb lc S_max then Ok (MinMax, r) else Err E_SYN
+    | _ => Err E_SYN
+    end
+  end.
+
+Definition take_punct (c : N) (ts : list tok) : res (list tok) :=
+  match ts with
+  | TPunct d :: r => if d =? c then Ok r else Err E_SYN
+  | _ => Err E_SYN
+  end.
+
+Definition peek_punct (c : N) (ts : list tok) : bool :=
+  match ts with TPunct d :: _ => d =? c | _ => false end.
+
+(* `, . . .` when the next token is a comma; the whole buffer has to be consumed afterwards (syn checks a
+   parenthesised buffer for left-over tokens) *)
+Definition parse_ext_eof (ts : list tok) : res bool :=
+  if peek_punct COMMA ts then
+    let! r := take_punct COMMA ts in let! r := take_punct DOT r in let! r := take_punct DOT r in let! r := take_punct DOT r in
+    match r with [] => Ok true | _ => Err E_SYN end
+  else match ts with [] => Ok false | _ => Err E_SYN end.
+
+(* range.rs IntegerRange::parse + the mapping into Range<Option<i64>> of attribute.rs *)
+Definition parse_int_range (ts : list tok) : res (option Z * option Z * bool) :=
+  let! (mn, r) := parse_mmv ts in
+  let! r := take_punct DOT r in
+  let! r := take_punct DOT r in
+  let! (mx, r) := parse_mmv r in
+  let! e := parse_ext_eof r in
+  match mn, mx with
+  | MinMax, MinMax => Ok (None, None, e)
+  | Value a, MinMax => if (a =? 0)%Z then Ok (None, None, e) else Ok (Some a, Some I64_MAX, e)
+  | Value a, Value b => Ok (Some a, Some b, e)
+  | MinMax, Value b => Ok (Some (if (0 <? b)%Z then 0%Z else I64_MIN), Some b, e)
+  end.
+
+(* size.rs value(): an integer literal that fits usize; min/max are refused by the callers *)
+Definition parse_size_value (ts : list tok) : res (N * list tok) :=
+  match take_int ts with
+  | Some (z, r) => if in_usize z then Ok (Z.to_N z, r) else Err E_SYN
+  | None => Err E_SYN
+  end.
+
+(* size.rs Size::parse *)
+Definition parse_size (ts : list tok) : res size :=
+  let! (mn, r) := parse_size_value ts in
+  match r with
+  | [] => Ok (SFix mn false)
+  | _ =>
+    if peek_punct COMMA r then
+      let! r := take_punct COMMA r in let! r := take_punct DOT r in let! r := take_punct DOT r in let! r := take_punct DOT r in
+      match r with [] => Ok (SFix mn true) | _ => Err E_SYN end
+    else
+      let! r := take_punct DOT r in
+      let! r := take_punct DOT r in
+      let! (mx, r) := parse_size_value r in
+      let! e := (if peek_punct COMMA r && peek_punct DOT (tl r) then parse_ext_eof r
+                 else match r with [] => Ok false | _ => Err E_SYN end) in
+      if mn =? mx then Ok (SFix mn e) else Ok (SRange mn mx e)
+  end.
+
+(* attribute.rs parse_opt_size_or_any: `input` is what follows the type name in the current buffer *)
+Definition parse_opt_size (ts : list tok) : res (size * list tok) :=
+  match ts with
+  | TParen content :: r =>
+    match content with
+    | [] => Ok (SAny, r)
+    | TIdent id :: TParen sz :: [] =>
+      if str_eqb (lower_str id) S_size then let! s := parse_size sz in Ok (s, r) else Err E_SYN
+    | _ => Err E_SYN
+    end
+  | _ => Ok (SAny, ts)
+  end.
+
+(* tag.rs AttrTag::parse: a parenthesised group holding NAME(number) or a number *)
+Definition parse_tag_group (ts : list tok) : res (tag * list tok) :=
+  match ts with
+  | TParen (TIdent v :: TParen (TNum n :: _) :: _) :: r =>
+    if negb (N.leb n USIZE_MAX) then Err E_SYN else
+    let lv := lower_str v in
+    if str_eqb lv S_universal then Ok (TUniversal n, r)
+    else if str_eqb lv S_application then Ok (TApplication n, r)
+    else if str_eqb lv S_private then Ok (TPrivate n, r)
+    else Err E_SYN
+  | TParen (TNum n :: _) :: r => if N.leb n USIZE_MAX then Ok (TContext n, r) else Err E_SYN
+  | _ => Err E_SYN
+  end.
+
+(* the default literal of `default(type, literal)`: syn::Lit, else a two-segment path; nothing may follow *)
+Definition parse_lit (ts : list tok) : res lit :=
+  match ts with
+  | [TStr s] => Ok (LStr s)
+  | [TIdent a; TPunct c1; TPunct c2; TIdent b] =>
+    if (c1 =? COLON) && (c2 =? COLON) && is_rust_ident a && negb (is_keyword a) && is_rust_ident b && negb (is_keyword b)
+    then Ok (LEnum a b) else Err E_SYN
+  | [TIdent a] => if str_eqb a S_true then Ok (LBool true) else if str_eqb a S_false then Ok (LBool false) else Err E_SYN
+  | _ =>
+    match take_int ts with
+    | Some (z, []) => if in_i64 z then Ok (LInt z) else Err E_SYN
+    | _ => Err E_SYN
+    end
+  end.
+
+Inductive kind :=
+| KBool | KNull | KInteger | KOctet | KBits | KString (cs : charset) | KOptional | KDefault | KSeqOf | KSetOf | KComplex | KUnknown.
+
+(* the `match lowercase_ident` of parse_type_pre_stepped, in its order *)
+Definition ident_kind (lc : list N) : kind :=
+  if str_eqb lc S_octet_string then KOctet
+  else if str_eqb lc S_bit_string then KBits
+  else if str_eqb lc (charset_name Utf8) then KString Utf8
+  else if str_eqb lc (charset_name Numeric) then KString Numeric
+  else if str_eqb lc (charset_name Printable) then KString Printable
+  else if str_eqb lc (charset_name Ia5) then KString Ia5
+  else if str_eqb lc (charset_name Visible) then KString Visible
+  else if str_eqb lc S_integer then KInteger
+  else if str_eqb lc S_complex then KComplex
+  else if str_eqb lc S_option || str_eqb lc S_optional then KOptional
+  else if str_eqb lc S_default then KDefault
+  else if str_eqb lc S_boolean then KBool
+  else if str_eqb lc S_null then KNull
+  else if str_eqb lc S_sequence_of then KSeqOf
+  else if str_eqb lc S_set_of then KSetOf
+  else KUnknown.
+
+(* parse_type: an identifier, then parse_type_pre_stepped; answers the type and the rest of the current buffer *)
+Fixpoint parse_ty (fuel : nat) (ts : list tok) : res (aty * list tok) :=
+  match fuel with
+  | O => Err E_FUEL
+  | S f =>
+    match ts with
+    | TIdent id :: r =>
+      match ident_kind (lower_str id) with
+      | KOctet => let! (s, r') := parse_opt_size r in Ok (AOct s, r')
+      | KBits => let! (s, r') := parse_opt_size r in Ok (ABits s, r')
+      | KString cs => let! (s, r') := parse_opt_size r in Ok (AStr s cs, r')
+      | KInteger =>
+        match r with
+        | [] => Ok (AInt None None false, [])
+        | TParen [] :: r' => Ok (AInt None None false, r')
+        | TParen content :: r' => let! (mn, mx, e) := parse_int_range content in Ok (AInt mn mx e, r')
+        | _ => Err E_SYN
+        end
+      | KComplex =>
+        match r with
+        | TParen (TIdent name :: TPunct c :: TIdent tg :: content) :: r' =>
+          if negb (c =? COMMA) || negb (is_rust_ident name) || is_keyword name || negb (is_rust_ident tg) || is_keyword tg then Err E_SYN
+          else if negb (str_eqb (lower_str tg) S_tag) then Err E_SYN
+          else let! (g, rest) := parse_tag_group content in
+               match rest with [] => Ok (ARef name (Some g), r') | _ => Err E_SYN end
+        | _ => Err E_SYN
+        end
+      | KOptional =>
+        match r with
+        | TParen content :: r' =>
+          let! (t, rest) := parse_ty f content in
+          match rest with [] => Ok (AOpt t, r') | _ => Err E_SYN end
+        | _ => Err E_SYN
+        end
+      | KDefault =>
+        match r with
+        | TParen content :: r' =>
+          let! (t, rest) := parse_ty f content in
+          let! rest := take_punct COMMA rest in
+          let! l := parse_lit rest in
+          Ok (ADef t l, r')
+        | _ => Err E_SYN
+        end
+      | KBool => Ok (ABool, r)
+      | KNull => Ok (ANull, r)
+      | KSeqOf | KSetOf =>
+        match r with
+        | TParen content :: r' =>
+          let! (sz, inner) :=
+             (match content with
+              | TIdent i :: TParen szt :: rest =>
+                if str_eqb (lower_str i) S_size
+                then let! s := parse_size szt in let! rest := take_punct COMMA rest in Ok (s, rest)
+                else Ok (SAny, content)
+              | _ => Ok (SAny, content)
+              end) in
+          let! (t, rest) := parse_ty f inner in
+          match rest with
+          | [] => Ok (match ident_kind (lower_str id) with KSeqOf => ASeqOf t sz | _ => ASetOf t sz end, r')
+          | _ => Err E_SYN
+          end
+        | _ => Err E_SYN
+        end
+      | KUnknown => Err E_SYN
+      end
+    | _ => Err E_SYN
+    end
+  end.
+
+(* the whole attribute `#[asn(<type>)]` of a field: the type, then end of input *)
+Definition parse_attr_type (fuel : nat) (ts : list tok) : res aty :=
+  let! (t, rest) := parse_ty fuel ts in
+  match rest with [] => Ok t | _ => Err E_SYN end.
+
+Fixpoint depth (t : aty) : nat :=
+  match t with
+  | AOpt t' | ADef t' _ | ASeqOf t' _ | ASetOf t' _ => S (depth t')
+  | _ => O
+  end.
